@@ -6,7 +6,7 @@ Require Import Nib.Lib.Dec Nib.C13.Model Nib.C13.Spec Nib.C13.Check Nib.C13.Arit
 Local Open Scope Z_scope.
 
 (** THE PROPERTY.  From every consistent state, over every history of day-epoch ends with consecutive numbers,
-    toggles (by anybody), parameter edits that keep EpochsPerPeriod / MaxPeriod and other identifiers' epoch ends,
+    toggles (by anybody), edits of the params that keep EpochsPerPeriod / MaxPeriod and other identifiers' epoch ends,
     the effects of the code, op by op — supply change, fee collector / community pool / sudo root changes, module
     balance afterwards, CurrentPeriod afterwards, no panic — are those of the closed-form schedule [spec_run]:
     the (c+1)-th enabled day epoch mints floor(polynomial(p)*10^6/EPP) with p = floor(c/EPP), nothing once p reaches
@@ -89,7 +89,7 @@ Theorem C13_all_distributed :
 Proof. exact all_distributed. Qed.
 Print Assumptions C13_all_distributed.
 
-(** … and along EVERY history from EVERY state (any counters, any parameter edits, stray coins): at each
+(** … and along EVERY history from EVERY state (any counters, any edits of the params, stray coins): at each
     day-epoch end with valid proportions [dist_step] holds — minted >= 0, the three recipients receive the minted
     amount plus what lay in the module account, floors for staking / community, module account empty. *)
 Theorem C13_distributed_along_every_history :
